@@ -195,6 +195,7 @@ def run(eng, rep):
                 "num_pts are returned (shape expressions compared symbolically); the only writes after all construction steps are the clamp loop "
                 "results[:, i] = max(min(results[:, i], upper), lower) over range(num_pts), which dominates the return (T2). The first evaluated point and the "
                 "coordinate initialisation points go through the clamp decided under C01.")
+    rep.explain('Also decided: coordinate steps lie in [-2 delta, 2 delta] (interval reasoning, C14-4); lower/upper handling in get_scale, both generators and the coordinate initialiser are reflections (T14, C14-5); generators receive (sl - c, su - c) with c = xopt() in relative coordinates (C14-3).')
     rep.not_decided += ["distances in [0.01, 2]*rhobeg, affine independence, condition number < 1e4 (numerical)",
                         "'no longer than the requested length' (in doubt for the extra active-constraint directions built with 2*delta; numerical, noted, not armed)"]
     for fid in GENS:
